@@ -66,13 +66,18 @@ func appendIfNotIn(ids []*Identity, chk *Identity) []*Identity {
 }
 
 // addChildren adds identity r and all of its children to ids
-// deterministically.
-func addChildren(r *Identity, ids []*Identity) []*Identity {
+// deterministically. seen holds the identities already visited, so that a
+// derivation cycle does not recurse forever.
+func addChildren(r *Identity, ids []*Identity, seen map[*Identity]bool) []*Identity {
+	if seen[r] {
+		return ids
+	}
+	seen[r] = true
 	ids = appendIfNotIn(ids, r)
 
 	// Iterate through the values of r.
 	for _, ch := range r.Values {
-		ids = addChildren(ch, ids)
+		ids = addChildren(ch, ids, seen)
 	}
 	return ids
 }
@@ -179,8 +184,12 @@ func (ms *Modules) resolveIdentities() []error {
 	// the children of each identity.
 	for _, i := range ms.typeDict.identities.dict {
 		newValues := []*Identity{}
+		seen := map[*Identity]bool{}
 		for _, j := range i.Identity.Values {
-			newValues = addChildren(j, newValues)
+			newValues = addChildren(j, newValues, seen)
+		}
+		if seen[i.Identity] {
+			errs = append(errs, fmt.Errorf("%s: identity %s is derived from itself", Source(i.Identity), i.Identity.Name))
 		}
 		sort.SliceStable(newValues, func(j, k int) bool {
 			return newValues[j].Name < newValues[k].Name
